@@ -1,8 +1,8 @@
 (** C04 — Only the identity the auth backend verified is authenticated.
     Statements only; every proof is [exact <lemma>] or a [vm_compute] witness. *)
 From Coq Require Import String Ascii List Bool Arith ZArith Permutation.
-From Raven Require Import Base.GoStr Base.GoStrB64 Base.GoStrJson Spec.Json Model.Auth Spec.AuthSpec
-  Proof.AuthJson Proof.AuthIdent Proof.AuthFlow Proof.AuthSasl Proof.AuthLogin Proof.AuthB64 Proof.AuthPlain Proof.AuthEnd Proof.AuthConc.
+From Raven Require Import Base.GoStr Base.GoStrB64 Base.GoStrJson Spec.Json Model.CmdTokenizer Model.Auth Spec.CmdArgs Spec.AuthSpec
+  Proof.AuthJson Proof.AuthIdent Proof.AuthFlow Proof.CmdTokenizer Proof.AuthSasl Proof.AuthLogin Proof.AuthB64 Proof.AuthPlain Proof.AuthEnd Proof.AuthConc.
 Import ListNotations.
 
 (** (a) For ALL addresses and passwords that are valid UTF-8 -- every ASCII
@@ -191,17 +191,55 @@ Proof. vm_compute. repeat split; reflexivity. Qed.
 
 (** ---- entry points: from the bytes on the wire ---- *)
 
-(** LOGIN with atom or quoted arguments made of blank-free, quote-free,
-    backslash-free ASCII octets: exactly (u, p) reaches authenticateUser *)
+(** The command-line tokenizer (utils.SplitCommandLine / ParseQuotedString /
+    QuoteString): (a) for EVERY list of arguments, each written as an atom
+    (non-empty, no white space, double quote or backslash) or as a quoted
+    string of ARBITRARY octets, separated by single blanks, the fields are
+    exactly the written arguments, and unquoting gives back each argument *)
+Theorem c04_split_roundtrip : forall args : list (arg_form * str),
+  forallb arg_ok args = true ->
+  split_command_line (render_line args) = map (fun a => render_arg (fst a) (snd a)) args.
+Proof. exact split_roundtrip. Qed.
+Print Assumptions c04_split_roundtrip.
+
+Theorem c04_unquote_roundtrip : forall f s, arg_ok (f, s) = true -> parse_quoted (render_arg f s) = s.
+Proof. exact parse_render. Qed.
+Print Assumptions c04_unquote_roundtrip.
+
+Theorem c04_parse_quote_inverse : forall s : str, parse_quoted (quote_string s) = s.
+Proof. exact parse_quote_roundtrip. Qed.
+Print Assumptions c04_parse_quote_inverse.
+
+(** (b) on lines without a double quote it is strings.Fields: nothing changes
+    for the commands that worked before *)
+Theorem c04_split_is_fields_without_quote : forall line : str,
+  contains_byte line DQUOTE = false -> split_command_line line = fields line.
+Proof. exact split_no_quote. Qed.
+Print Assumptions c04_split_is_fields_without_quote.
+
+(** (c) totality: for EVERY byte string the loop ends within the length of the
+    line -- every iteration consumes at least one octet, more fuel never
+    changes the result (the model has no partial operation: nothing to panic) *)
+Theorem c04_split_total : forall (line : str) (extra : nat),
+  split_quoted (S (length line) + extra) line = split_quoted (S (length line)) line.
+Proof. exact split_command_line_total. Qed.
+Print Assumptions c04_split_total.
+
+(** LOGIN: user name and password written as atoms or as quoted strings of
+    ARBITRARY octets (blanks, quotes, backslashes included) reach
+    authenticateUser exactly as supplied -- no side condition left *)
 Theorem c04_login_args_exact : forall tag fu fp u p,
-  nsp tag = true -> tag <> [] -> classify_login fu fp u p = None ->
+  atom_ok tag = true -> arg_ok (fu, u) = true -> arg_ok (fp, p) = true ->
   login_creds false true (login_line tag fu fp u p) = Creds u p.
 Proof. exact login_args_exact. Qed.
 Print Assumptions c04_login_args_exact.
 
+(** ... and the property end to end from the line as read ([line_safe]: no CR,
+    LF, NUL inside the arguments, so that it is one line) *)
 Theorem c04_login_end_to_end : forall d tag fu fp u p b ens init,
-  nsp tag = true -> tag <> [] ->
-  classify_login fu fp u p = None -> ensure_sound ens -> in_domain d u p = true ->
+  atom_ok tag = true -> arg_ok (fu, u) = true -> arg_ok (fp, p) = true ->
+  line_safe u = true -> line_safe p = true ->
+  ensure_sound ens -> in_domain d u p = true ->
   imap_spec d u p (accepted b)
     (run_creds d (login_creds false true (login_line tag fu fp u p)) b ens init).
 Proof. exact login_end_to_end. Qed.
@@ -276,7 +314,7 @@ Theorem c04_sasl_multi_at_refused : forall domain u p b, multi_at u = true ->
 Proof. exact sasl_multi_at_refused. Qed.
 Print Assumptions c04_sasl_multi_at_refused.
 
-(** ---- refuted regions: raven violates the property there ---- *)
+(** ---- regression scenarios: behaviour raven used to violate the property with ---- *)
 
 (** regression notes (raven before the fixes; these do not mention the model):
     the Sprintf-built body for user  victim@d.test","email":"attacker@d.test
@@ -298,19 +336,13 @@ Example c04_regression_inputs :
   /\ sent (authenticate_user (S_ "d.test") (S_ "a@b@c") (S_ "pw") (Status 200) ensure_ok true) = [].
 Proof. repeat split; vm_compute; reflexivity. Qed.
 
-(** LOGIN "a b" "p q": split on blanks before unquoting, the backend is asked
-    about a / b *)
-Theorem c04_refuted_login_tokens :
-  let line := login_line (S_ "k1") Quoted Quoted (S_ "a b") (S_ "p q") in
-  classify_login Quoted Quoted (S_ "a b") (S_ "p q") = Some F_login_tokens
-  /\ login_creds false true line = Creds (S_ "a") (S_ "b")
-  /\ ~ imap_spec (S_ "d.test") (S_ "a b") (S_ "p q") true
-        (run_creds (S_ "d.test") (login_creds false true line) (Status 200) ensure_ok true).
-Proof.
-  split; [vm_compute; reflexivity|]. split; [vm_compute; reflexivity|].
-  intros H. apply imap_spec_b_iff in H. vm_compute in H. discriminate.
-Qed.
-Print Assumptions c04_refuted_login_tokens.
+ (** LOGIN "a b" "p q" (used to reach the backend as a / b) and a password with
+    a quote and a backslash now arrive verbatim *)
+Example c04_regression_login_tokens :
+  login_creds false true (login_line (S_ "k1") QuotedForm QuotedForm (S_ "a b") (S_ "p q")) = Creds (S_ "a b") (S_ "p q")
+  /\ login_creds false true (S_ "k2 LOGIN ""a b"" ""p q""" ++ crlf) = Creds (S_ "a b") (S_ "p q")
+  /\ login_creds false true (login_line (S_ "k3") AtomForm QuotedForm (S_ "bob") (S_ "p""q\r  s")) = Creds (S_ "bob") (S_ "p""q\r  s").
+Proof. repeat split; vm_compute; reflexivity. Qed.
 
 (** SASL user name with LF (an OK line used to follow the FAIL after a 401):
     now one FAIL line, no backend request *)
